@@ -293,6 +293,7 @@ func ecdsaProperty(t *testing.T, names []string, quick, thorough int) {
 			rec.Discarded("ecdsa:excluded shape of open finding " + sig)
 			return
 		}
+		rec.Begin("ecdsa", c)
 		rec.Report(rt, "ecdsa", c, runECDSA(c))
 	})
 }
